@@ -20,7 +20,8 @@
 //!           then `|` and the inline block `location,size` or `-`; binding = `name,(i<index>|n<offset>),(count|*)`
 //!           | `err:none` | `err:unknown:<name>` | `err:bind-group:<n>` | `err:other:<text>` | `panic:<site>`
 //! oracle  : the property's own words on the real metadata of every returned pipeline (independent of the model):
-//!           in each group the bound declarations appear in declaration order, index ranges tile from 0 with the
+//!           in each group exactly the bound declarations of the group are reported, their index ranges tile from 0 in
+//!           declaration order (entries are matched by name, not by position in the metadata vector) with the
 //!           length the kind and array length need on the target, buffer addresses take 8 bytes each at
 //!           consecutive offsets of one inline block whose slot follows all index slots and whose size is their
 //!           sum, ungrouped resources are in the default group of THIS pipeline (0 in no-pipeline mode).
@@ -541,6 +542,14 @@ fn demand(r: &Res, tgt: Tgt, dflt: u32) -> Option<(u32, bool, u32, u32)> {
     }
 }
 
+fn explicit_set(r: &Res) -> Option<u32> {
+    match &r.decl {
+        Decl::CBuffer(s) => *s,
+        Decl::Global { set, .. } | Decl::StaticObject { set, .. } => *set,
+        Decl::Other => None,
+    }
+}
+
 fn oracle_pipeline(p: &Prog, tgt: Tgt, dflt: u32, groups: &[MetaGroup]) -> Result<(), String> {
     use std::collections::BTreeMap;
     // unsized arrays are outside the property (its quantifier excludes them): a group that reports one is not judged
@@ -552,7 +561,15 @@ fn oracle_pipeline(p: &Prog, tgt: Tgt, dflt: u32, groups: &[MetaGroup]) -> Resul
         if r.unsized_arr || r.dim2 {
             continue;
         }
-        if let Some((g, inline, amount, count)) = demand(r, tgt, dflt) {
+        if let Some((mut g, inline, amount, count)) = demand(r, tgt, dflt) {
+            // two explicit groups on one declaration (attribute G and register space G+1): the property does not say
+            // which explicit group wins, so either is accepted here (the model pins what the code does)
+            if r.how == How::Override
+                && groups.get(g as usize + 1).is_some_and(|x| x.bindings.iter().any(|b| b.name == r.name))
+                && explicit_set(r).is_some()
+            {
+                g += 1;
+            }
             let ctr = if inline { next_inline.entry(g).or_insert(0) } else { next_index.entry(g).or_insert(0) };
             want.entry(g).or_default().push((r.name.clone(), inline, *ctr, count));
             *ctr += amount;
@@ -566,8 +583,13 @@ fn oracle_pipeline(p: &Prog, tgt: Tgt, dflt: u32, groups: &[MetaGroup]) -> Resul
             continue;
         }
         let w = want.get(&g).cloned().unwrap_or_default();
-        for (k, wb) in w.iter().enumerate() {
-            let Some(gb) = got.bindings.get(k) else {
+        // entries are matched by name: the property speaks of the slots, not of the order of the metadata vector
+        for wb in w.iter() {
+            let found: Vec<&MetaBinding> = got.bindings.iter().filter(|b| b.name == wb.0).collect();
+            if found.len() > 1 {
+                return Err(format!("{} is reported {} times in group {}", wb.0, found.len(), g));
+            }
+            let Some(gb) = found.first() else {
                 // where did it go?
                 let elsewhere = groups.iter().position(|x| x.bindings.iter().any(|b| b.name == wb.0));
                 return Err(match elsewhere {
@@ -575,15 +597,6 @@ fn oracle_pipeline(p: &Prog, tgt: Tgt, dflt: u32, groups: &[MetaGroup]) -> Resul
                     None => format!("{} must be bound in group {} but has no metadata entry", wb.0, g),
                 });
             };
-            if gb.name != wb.0 {
-                let elsewhere = groups.iter().position(|x| x.bindings.iter().any(|b| b.name == wb.0));
-                return Err(match elsewhere {
-                    Some(e) if e as u32 != g => {
-                        format!("{} belongs to group {} of this pipeline but is reported in group {}", wb.0, g, e)
-                    }
-                    _ => format!("group {} entry {} is {}, expected {} (declaration order)", g, k, gb.name, wb.0),
-                });
-            }
             if gb.inline != wb.1 {
                 return Err(format!(
                     "{} expected {} but is {}",
@@ -606,12 +619,8 @@ fn oracle_pipeline(p: &Prog, tgt: Tgt, dflt: u32, groups: &[MetaGroup]) -> Resul
                 return Err(format!("{} reports {:?} descriptors, expected {}", wb.0, gb.count, wb.3));
             }
         }
-        if got.bindings.len() > w.len() {
-            return Err(format!(
-                "group {} reports {} which takes no slot there",
-                g,
-                got.bindings[w.len()].name
-            ));
+        if let Some(extra) = got.bindings.iter().find(|b| !w.iter().any(|wb| wb.0 == b.name)) {
+            return Err(format!("group {} reports {} which takes no slot there", g, extra.name));
         }
         let want_block = next_inline.get(&g).map(|size| (*next_index.get(&g).unwrap_or(&0), *size));
         if got.inline_block != want_block {
